@@ -108,7 +108,14 @@ fn mangled_outside_dialect(q: &Query, doc: &J) -> bool {
     }
     for a in args {
         match a {
-            Arg::Lit(Lit::Str(s)) => pats.push(s.raw.clone()),
+            Arg::Lit(Lit::Str(s)) => {
+                // a quotation mark written as an escape reaches the engine with its backslash (K4); `\'` is no
+                // escape of the harness' dialect, the engine reads it as the quotation mark
+                if s.raw.contains("\\'") || s.raw.contains("\\\"") {
+                    hit = true;
+                }
+                pats.push(s.raw.clone())
+            }
             Arg::Q(_) => {
                 // patterns delivered through the document: every string of the document is a candidate
                 fn strings(j: &J, out: &mut Vec<String>) {
@@ -284,6 +291,7 @@ fn subject_value(src: &mut Src, re: &regexo::Re) -> J {
 }
 
 fn random_regex(src: &mut Src, obs: &mut Obs) -> Res {
+    regexo::allow_quotes();
     let re = regexo::gen_pattern(src);
     let pat = regexo::render(&re);
     // harness self-consistency: the renderer and the parser agree
@@ -342,6 +350,7 @@ fn random_regex(src: &mut Src, obs: &mut Obs) -> Res {
 
 /// invalid patterns, non-string patterns, subjects as literals
 fn random_regex_edges(src: &mut Src, obs: &mut Obs) -> Res {
+    regexo::allow_quotes();
     let search = src.bool();
     let name = if search { "search" } else { "match" };
     let subj = J::Str(src.pick(&["", "a", "ab", "(", "a(", "*a", "abc"]).to_string());
@@ -371,6 +380,7 @@ fn random_regex_edges(src: &mut Src, obs: &mut Obs) -> Res {
 /// the regions of the open findings K4/K5: patterns with escaped backslashes or quotes at the ends,
 /// subjects with CR, subjects given as literals with escapes
 fn random_regex_known_regions(src: &mut Src, obs: &mut Obs) -> Res {
+    regexo::allow_quotes();
     let search = src.bool();
     let name = if search { "search" } else { "match" };
     let (pat, subj): (String, String) = match src.below(4) {
